@@ -12,7 +12,7 @@
    the correspondence check (family idem).  Byte-identity of stage files follows from equality
    of the stage records plus determinism of the YAML encoder (C17; yaml.v2 is not modelled). *)
 From Coq Require Import NArith List Bool.
-From DudV Require Import Base.Bytes Model.Fs Model.Cache Proofs.CacheDefs Proofs.CommitProofs Proofs.CheckoutProofs.
+From DudV Require Import Base.Bytes Model.Fs Model.Cache Proofs.CacheDefs Proofs.CommitProofs Proofs.CheckoutProofs Model.Init Proofs.InitProofs.
 Import ListNotations.
 
 Theorem C15_commit_repeat :
@@ -47,3 +47,26 @@ Theorem C15_mixed_checkout :
     checkout_node H fuel a slot c st = Ok r -> preserved c st slot r.
 Proof. exact checkout_frame_strong. Qed.
 Print Assumptions C15_mixed_checkout.
+
+(* last sentence: `dud init` inside an initialised project (its index exists) refuses and leaves
+   index, configuration, .gitignore, rclone.conf and the cache directory exactly as they are -
+   for every content of those files and every configuration text init would have written *)
+Theorem C15_init_never_discards :
+  forall cfg rcl m, m_index m <> None ->
+    let m' := fst (init_cmd cfg rcl m) in
+    m_index m' = m_index m /\ m_config m' = m_config m /\ m_ignore m' = m_ignore m /\
+    m_rclone m' = m_rclone m /\ m_cache m' = m_cache m /\ snd (init_cmd cfg rcl m) = false.
+Proof. exact init_never_discards. Qed.
+Print Assumptions C15_init_never_discards.
+
+(* init succeeds exactly when there is no index; afterwards there is one, so repeating it refuses
+   and changes nothing *)
+Theorem C15_init_ok_iff : forall cfg rcl m, snd (init_cmd cfg rcl m) = true <-> m_index m = None.
+Proof. exact init_ok_iff. Qed.
+Print Assumptions C15_init_ok_iff.
+
+Theorem C15_init_repeat :
+  forall cfg rcl cfg' rcl' m,
+    init_cmd cfg' rcl' (fst (init_cmd cfg rcl m)) = (fst (init_cmd cfg rcl m), false).
+Proof. exact init_twice. Qed.
+Print Assumptions C15_init_repeat.
